@@ -782,7 +782,12 @@ class Tuple(ValueNode):
     def __setitem__(self, index, item):
         if not isinstance(item, NodeBase):
             item = Parameter(item)
+        _old_item = self._children[index]
         self._children[index] = item
+        item.add_parent(self)
+        if _old_item not in self._children:
+            _old_item.remove_parent(self)
+        self.mark_for_update()
 
     @property
     def nodes(self):
